@@ -18,6 +18,9 @@ Decides:
  E  environment absence   "unset" means std::env::var_os returned None: the environment lookups of flags and arguments are the
                            listed var_os sites (a lossy or fallible read such as env::var would turn a set but non-UTF-8
                            variable into "absent" and let a default mask it) - shared with C18.
+ T  combine table         when two alternatives fail, a final error (ParseFailed / GuardFailed ..) is never replaced by a catchable one
+                           (absence), so optional/fallback around a choice cannot mistake an invalid value for a missing item (shared with C10).
+ U  usage fallback        a failure is replaced by the usage text on stdout only when the level was given no items at all (shared with C10/C11).
 Does not decide: which error survives for a particular nesting inside alternatives."""
 import re
 from core import *
@@ -30,7 +33,7 @@ LEVEL = 'other'
 EXPLANATION = __doc__
 ASSUMPTIONS = ['user closures (parse/guard functions, FromStr) are total and pure',
                'third-party Parser impls cannot consume items (State::remove is crate-private, see C05)']
-FLOORS = {'K1.classification': 17, 'K2.context': 20, 'K3.consult': 120, 'K4.discipline': 9, 'K5.loops': 11, 'K6.text': 7, 'E.env-absence': 2}
+FLOORS = {'K1.classification': 17, 'K2.context': 20, 'K3.consult': 120, 'K4.discipline': 9, 'K5.loops': 11, 'K6.text': 7, 'E.env-absence': 2, 'T.combine': 200, 'U.usage-fallback': 1}
 
 CATCHABLE = {'NoEnv', 'ParseSome', 'ParseFail', 'PureFailed', 'Missing', 'NonStrictPos'}
 
@@ -61,7 +64,9 @@ def run(ctx):
         ctx.guard(k2, ctx, cfg, fs, table)
         ctx.guard(k3, ctx, cfg, fs, table)
         ctx.guard(k4, ctx, cfg, fs)
-        import c08, c18
+        import c08, c18, c10
+        ctx.guard(c08.keep_only, ctx, lambda: c10.combine(ctx, cfg, fs), lambda o: True, 'T.combine')
+        ctx.guard(c08.keep_only, ctx, lambda: c10.usage_fallback(ctx, cfg, ctx.look(fs.one(r'^info::OptionParser::<T>::run_subparser$')), 'U.usage-fallback'), lambda o: True, 'U.usage-fallback')
         ctx.guard(c08.keep_only, ctx, lambda: c18.who(ctx, cfg, fs), lambda o: o.key.startswith(('params::', '<params::')) and 'std::env::' in o.key, 'E.env-absence')
         ctx.guard(k5, ctx, cfg, fs)
         ctx.guard(len_threaded, ctx, cfg, fs)
